@@ -5,6 +5,16 @@ V = os.path.dirname(os.path.dirname(os.path.abspath(__file__)))
 props = [json.loads(l) for l in open(os.path.join(V, "properties.jsonl"))]
 TB = "Trusted: rustc's MIR construction and type checking (nightly 1.97, mir-opt-level=0), the checker's own abstract interpreter / rule code (validated against seeded mutants and benign edits), std collection semantics."
 CLAIMS = {
+ "C12": dict(
+   technique="state-ownership analysis over type-checked MIR (who may write Parser's fields, receiver mutability, interior-mutability scan) plus path enumeration of add_content / add_file / remove_content / validate by abstract interpretation",
+   text="Static non-interference argument: every access to a field of Parser in the whole crate is enumerated; the only mutable ones are insert(id, ..) in add_content and remove(&id) in remove_content; on every path add_content stores exactly one result tagged and keyed with the caller's id and built only from parsing `content` with a fresh lookup and vector; validate takes &self, recomputes the key map and hands a clone to validation; add_file reaches add_content only after open and read both succeeded and returns the error without touching the parser otherwise; no statics, interior mutability or impure std sources.",
+   note=TB + " Equality with a fresh parser also needs seed independence (C11, incl. its known finding).",
+   design="DESIGN.md section 4, C12"),
+ "C13": dict(
+   technique="closure-capture and type-resolved access-pattern analysis of the shared key -> kind map; provenance of its entries by abstract interpretation",
+   text="Static non-interference argument: the per-file closure captures only the shared map by shared reference; every type-resolved use of a HashMap<String, ResolvedItemKind> reachable from it is get / contains_key; the map's entries are (get_key(), get_kind()) and get_key reads only package and item name; no global state.",
+   note=TB,
+   design="DESIGN.md section 4, C13"),
  "C11": dict(
    technique="type-resolved hash-order taint classification of every consumer of a HashMap/HashSet iterator reachable from validation; dominator rule + key extraction for the final sort; global-state / purity scan",
    text="Static: every call whose receiver type is an adaptor chain over a std hash iterator, in all functions reachable from the entry points, is enumerated from type-checked MIR and must fall in a discharged class (order-insensitive, unique choice by minimum over distinct keys, find whose predicate implies equality with a loop-invariant, for-loop whose only effects are diagnostics re-ordered by the final sort, collect into a map with keys proven distinct); the final sort must be stable, last, and keyed on the whole start position (key closure tabulated); no statics, interior mutability, clock, environment or random source.",
